@@ -53,7 +53,8 @@ def run(module, cfg, scratch, workers=16, extra=(), env=None, timeout=3600, tag=
     out, states, distinct, seconds, ok, violated (name of violated invariant)."""
     tag = tag or f"{module}-{os.path.basename(cfg)}-{time.time_ns()}"
     meta = os.path.join(scratch, "meta-" + tag)
-    cmd = ["java", "-XX:+UseParallelGC", "-Xmx" + xmx, "-cp", JAR, "tlc2.TLC", "-workers", str(workers),
+    # -Xss: the mechanism models fold over result sequences with recursive operators; TLC evaluates them on the Java stack
+    cmd = ["java", "-XX:+UseParallelGC", "-Xmx" + xmx, "-Xss64m", "-cp", JAR, "tlc2.TLC", "-workers", str(workers),
            "-metadir", meta, "-noGenerateSpecTE", "-config", cfg, *extra, os.path.join(SPEC, module + ".tla")]
     e = dict(os.environ)
     if env:
